@@ -504,15 +504,23 @@ def run_C20_asyncio(res, tier, seed, t_end):
 
 
 # ----------------------------------------------------------------------------- C14 (client level)
+def sorted_page(page):
+    """(cursor, members) of a set scan with the members in a canonical order"""
+    try:
+        return (page[0], sorted(page[1], key=repr))
+    except Exception:      # noqa
+        return page
+
+
 def run_C14(res, tier, seed, t_end):
     """the same operations through FakeStrictRedis and through fakeredis.aioredis.FakeRedis give the same results,
     including the connection-error emulation with replies already queued"""
     real_time()
     rng = random.Random(seed + 14)
 
-    def ops_sync(srv):
+    def ops_sync(srv, **kw):
         out = []
-        r = fakeredis.FakeStrictRedis(server=srv)
+        r = fakeredis.FakeStrictRedis(server=srv, **kw)
 
         def do(f):
             try:
@@ -529,6 +537,11 @@ def run_C14(res, tier, seed, t_end):
         p = r.pipeline(); p.set('a', '1'); p.incr('a'); p.lpush('a', 'x'); p.get('a')
         do(lambda: p.execute(raise_on_error=False) and [str(type(x).__name__) if isinstance(x, Exception) else x for x in p.execute(raise_on_error=False)] if False else None)
         p2 = r.pipeline(transaction=True); p2.set('t', '1'); p2.get('t'); do(lambda: p2.execute())
+        # replies with arrays inside arrays (cursor pages, EXEC holding lists, blocking-pop pairs): every level is decoded alike
+        do(lambda: r.sadd('s', 'm1', 'm2')); do(lambda: sorted_page(r.sscan('s', 0))); do(lambda: r.hscan('h', 0)); do(lambda: r.zscan('z', 0))
+        do(lambda: r.execute_command('SCAN', '0', 'MATCH', 'k*')); do(lambda: r.execute_command('HSCAN', 'h', '0'))
+        p3 = r.pipeline(transaction=True); p3.rpush('l2', 'x', 'y'); p3.lrange('l2', 0, -1); p3.hgetall('h'); p3.execute_command('SCAN', '0', 'MATCH', 'l2'); do(lambda: p3.execute())
+        do(lambda: r.brpop(['l2'], 1)); do(lambda: r.brpoplpush('l2', 'l3', 1)); do(lambda: r.execute_command('BLPOP', 'l3', '1'))
         ps = r.pubsub(); ps.subscribe('ch'); do(lambda: ps.get_message(timeout=0.2))
         do(lambda: ps.get_message(timeout=0.03))         # nothing pending: the poll loop runs into its time-out
         r.publish('ch', 'queued-before-outage')
@@ -540,9 +553,9 @@ def run_C14(res, tier, seed, t_end):
         do(lambda: r.get('k'))
         return out
 
-    async def ops_async(srv):
+    async def ops_async(srv, **kw):
         out = []
-        r = far.FakeRedis(server=srv)
+        r = far.FakeRedis(server=srv, **kw)
 
         async def do(f):
             try:
@@ -560,6 +573,13 @@ def run_C14(res, tier, seed, t_end):
         out.append(('ok', None))
         out.append(('ok', None))
         p2 = r.pipeline(transaction=True); p2.set('t', '1'); p2.get('t'); await do(lambda: p2.execute())
+
+        async def sscan_sorted():
+            return sorted_page(await r.sscan('s', 0))
+        await do(lambda: r.sadd('s', 'm1', 'm2')); await do(sscan_sorted); await do(lambda: r.hscan('h', 0)); await do(lambda: r.zscan('z', 0))
+        await do(lambda: r.execute_command('SCAN', '0', 'MATCH', 'k*')); await do(lambda: r.execute_command('HSCAN', 'h', '0'))
+        p3 = r.pipeline(transaction=True); p3.rpush('l2', 'x', 'y'); p3.lrange('l2', 0, -1); p3.hgetall('h'); p3.execute_command('SCAN', '0', 'MATCH', 'l2'); await do(lambda: p3.execute())
+        await do(lambda: r.brpop(['l2'], 1)); await do(lambda: r.brpoplpush('l2', 'l3', 1)); await do(lambda: r.execute_command('BLPOP', 'l3', '1'))
         ps = r.pubsub(); await ps.subscribe('ch'); await do(lambda: ps.get_message(timeout=0.2))
         await do(lambda: ps.get_message(timeout=0.03))
         await r.publish('ch', 'queued-before-outage')
@@ -653,18 +673,20 @@ def run_C14(res, tier, seed, t_end):
     if got != [b'm1', b'm2', b'm3', b'm4', b'm5']:
         res.add(finding('C14', 'async_messages_in_order', 'a waiting asyncio subscriber received %r' % (got,)))
         return
-    for rnd in range(1 if tier == 'quick' else 5):
-        a = ops_sync(fakeredis.FakeServer())
+    configs = [{}, {'decode_responses': True}, {'decode_responses': True, 'encoding': 'latin-1'}]
+    for rnd in range(1 if tier == 'quick' else 3):
+      for kw in configs:
+        a = ops_sync(fakeredis.FakeServer(), **kw)
         loop = asyncio.new_event_loop()
         try:
-            b = loop.run_until_complete(ops_async(fakeredis.FakeServer()))
+            b = loop.run_until_complete(ops_async(fakeredis.FakeServer(), **kw))
         finally:
             loop.close()
         res.evaluations += len(a)
-        res.cells.add(('client-diff', rnd))
+        res.cells.add(('client-diff', rnd, tuple(sorted(kw))))
         if a != b:
             i = next((j for j in range(min(len(a), len(b))) if a[j] != b[j]), min(len(a), len(b)))
-            res.add(finding('C14', 'async_client_eq_sync_client', 'step %d: sync client %r, asyncio client %r' % (i, a[i:i + 1], b[i:i + 1])))
+            res.add(finding('C14', 'async_client_eq_sync_client', 'client options %r, step %d: sync client %r, asyncio client %r' % (kw, i, a[i:i + 1], b[i:i + 1])))
             return
 
 
